@@ -77,7 +77,7 @@ def run(ctx, config='rel-all'):
             t = b['blocks'][bi]['term']
             if t['k'] == 'call':
                 p = db.callee_path(t) or ''
-                if p in panicsafe.HOLE_CALLS or p == 'core::ptr::drop_in_place':
+                if p in panicsafe.HOLE_CALLS or p == 'core::ptr::drop_in_place' or p.endswith('>::drop_in_place'):
                     has_hole = True
                 if p in ('core::mem::forget', 'core::mem::manually_drop::ManuallyDrop::<T>::new') or p.endswith('::into_raw') or (p.endswith('::leak') and 'boxed::Box' in p):
                     calls_handoff = True        # the owner is given up by value: what is moved out afterwards belongs to nobody else
@@ -127,7 +127,7 @@ def run(ctx, config='rel-all'):
         killers = []
         for bi, t in db.calls(b):
             tp = t['callee'].get('path') or ''
-            if tp.endswith('Iterator::for_each') or tp == 'core::ptr::drop_in_place':
+            if tp.endswith('Iterator::for_each') or tp == 'core::ptr::drop_in_place' or tp.endswith('>::drop_in_place'):
                 killers.append(bi)
             elif tp.endswith('Iterator::next') or tp.endswith('DoubleEndedIterator::next_back'):
                 # `while let Some(x) = self.next() { drop(x) }`: a loop that is only left through the test of next()'s result
